@@ -454,6 +454,12 @@ func (fv *FuncVerifier) readVar(st *State, o *types.Var) Val {
 	t, ok := st.vars[o]
 	if !ok {
 		// variable not yet seen (e.g. captured, or declared by construct we skipped)
+		if fv.regionStart.IsValid() && o.Pos() < fv.regionStart && !fv.boxed[o] {
+			// region mode: a local of the enclosing function has one arbitrary value at region entry
+			t := fv.initialVar(o)
+			st.vars[o] = t
+			return Val{T: t, Ty: o.Type()}
+		}
 		v := fv.havocVal(st, o.Name(), o.Type())
 		st.vars[o] = v.T
 		return v
